@@ -146,6 +146,11 @@ def b(ck: Check) -> None:
     probs = []
     apps = {nm: [n for n in own_walk(f.node) if isinstance(n, ast.Call) and isinstance(n.func, ast.Attribute) and n.func.attr == "append"
                  and text(n.func.value) == nm] for nm in names}
+    xb0 = [n for n in own_walk(f.node) if isinstance(n, ast.Call) and callee_name(n) == "xie_beerel"]
+    ATTRS = "attractors"
+    if xb0 and isinstance(f.stmt_of(xb0[0]), ast.Assign) and f.stmt_of(xb0[0]).value is xb0[0]:
+        ATTRS = text(f.stmt_of(xb0[0]).targets[0])
+    CAND = text(xb0[0].args[1]) if xb0 and len(xb0[0].args) > 1 else "candidates"
     rn = fb.cfgn(rets[-1])
     comps = {nm: [v for _, v in fb.value_defs(nm, rn)] for nm in names}
     if all(not v for v in apps.values()) and all(len(c_) == 1 and isinstance(c_[0], ast.ListComp) for c_ in comps.values()):
@@ -155,12 +160,12 @@ def b(ck: Check) -> None:
             if len(c_.generators) != 1 or c_.generators[0].ifs:
                 probs.append("an attractor can be recorded with a seed but no set (or the reverse)")
         gt, gs = ct.generators[0], cs.generators[0]
-        if text(gt.iter) != "attractors":
+        if text(gt.iter) != ATTRS:
             probs.append(f"the sets range over `{text(gt.iter)}`")
         if text(ct.elt) != f"{text(gt.target)}.vertices()":
             probs.append("the recorded set is not the vertex set of the loop's attractor")
         src_ok = (text(gs.iter) == names[1] and f"next({text(gs.target)}.items())" in text(cs.elt)) or \
-                 (text(gs.iter) == "attractors" and f"next({text(gs.target)}.vertices().items())" in text(cs.elt))
+                 (text(gs.iter) == ATTRS and f"next({text(gs.target)}.vertices().items())" in text(cs.elt))
         if not src_ok:
             probs.append("the seed is not taken from the recorded vertex set")
     elif any(len(v) != 1 for v in apps.values()):
@@ -175,7 +180,7 @@ def b(ck: Check) -> None:
             lp = l1[0]
             if any(isinstance(x, (ast.If, ast.Continue, ast.Break)) for x in ast.walk(lp)):
                 probs.append("an attractor can be recorded with a seed but no set (or the reverse)")
-            if text(lp.iter) != "attractors":
+            if text(lp.iter) != ATTRS:
                 probs.append(f"the loop ranges over `{text(lp.iter)}`")
             # the seed is a state of the very attractor whose vertices are recorded
             sv = fb.single_def(text(a2.args[0]), fb.cfgn(a2)) if isinstance(a2.args[0], ast.Name) else None
@@ -188,12 +193,12 @@ def b(ck: Check) -> None:
           key="fallback pairing")
     # successors are excluded, the node's own space bounds the search
     probs = []
-    init = [n for n in own_walk(f.node) if isinstance(n, ast.Assign) and text(n.targets[0]) == "candidates"
+    init = [n for n in own_walk(f.node) if isinstance(n, ast.Assign) and text(n.targets[0]) == CAND
             and isinstance(n.value, ast.Call) and callee_name(n.value) == "mk_subspace"]
     if not init or fb.key(init[0].value.args[0], fb.cfgn(init[0])) != f"FIELD<{f.params()[0]}|{f.params()[1]}|space>":
         probs.append("the fallback does not start from the node's own space")
     xb = [n for n in own_walk(f.node) if isinstance(n, ast.Call) and callee_name(n) == "xie_beerel"]
-    if not xb or text(xb[0].args[1]) != "candidates":
+    if not xb or not isinstance(xb[0].args[1], ast.Name):
         probs.append("attractors are not computed on the reduced candidate set")
     ck.ob("B", fb, init[0] if init else f.node, not probs, "; ".join(probs) if probs else
           "fallback searches the node's space minus its successors", key="fallback region")
@@ -251,18 +256,43 @@ def c(ck: Check) -> None:
     for e in sfm.field_events():
         if e.kind == "store" and e.field == "attractor_sets" and e.value is not None and not is_none(e.value) and not is_empty_list(e.value):
             t = text(e.value)
-            ok = t.endswith("[1]") or t == "sets"
+            ok = t.endswith("[1]")
+            if not ok and isinstance(e.value, ast.Name):
+                # second element of the (seeds, sets) pair returned by the attractor computation
+                for d_ in sfm.cfg.reaching_defs(e.value.id, e.cfgn):
+                    a_ = d_.ast if d_.kind == "stmt" else None
+                    if isinstance(a_, ast.Assign) and isinstance(a_.targets[0], ast.Tuple) and len(a_.targets[0].elts) == 2 \
+                            and text(a_.targets[0].elts[1]) == e.value.id and isinstance(a_.value, ast.Call) \
+                            and callee_name(a_.value) in ("symbolic_attractor_fallback", "compute_attractors_symbolic"):
+                        ok = True
             ck.ob("C", sfm, e.stmt, ok, "sets stored together with the seeds they belong to" if ok else
                   f"`{t}` stored as the node's attractor sets")
 
 
 def d(ck: Check) -> None:
+    """symbolic_attractor_test; the working variables are identified by their role (returned set, avoid parameter, list
+    that the saturation loops range over and the extension loop appends to, ...), not by their names."""
     fm = ck.prog.fm(SYM, "symbolic_attractor_test")
     f = fm.f
     main = [n for n in f.node.body if isinstance(n, ast.While)]
     if len(main) != 1:
         raise AnalysisError("anchor vanished: main loop of symbolic_attractor_test")
     loop = main[0]
+    graph_p, avoid_p = f.params()[2], f.params()[-1]
+    final = [r for r in f.node.body if isinstance(r, ast.Return) and isinstance(r.value, ast.Name)]
+    if not final:
+        raise AnalysisError("anchor vanished: final return of symbolic_attractor_test")
+    REACH = final[-1].value.id
+    # the (backward-growing) avoid set: the set the reach set is intersected with
+    for c_ in ast.walk(loop):
+        if isinstance(c_, ast.Call) and isinstance(c_.func, ast.Attribute) and c_.func.attr == "intersect" and len(c_.args) == 1:
+            pair = {text(c_.func.value), text(c_.args[0])}
+            if REACH in pair and len(pair) == 2:
+                avoid_p = next(iter(pair - {REACH}))
+
+    def is_hit_test(a_: str) -> bool:
+        t = a_.replace(" ", "")
+        return t in (f"T:{avoid_p}.intersect({REACH}).is_empty()", f"T:{REACH}.intersect({avoid_p}).is_empty()")
     # returns: reach set only after the loop; None only on an avoid hit
     probs = []
     for r in own_walk(f.node):
@@ -278,20 +308,27 @@ def d(ck: Check) -> None:
                 ff = tr.f(test)
                 fs.append(ff if pol else logic.Not(ff))
             pc = logic.And(*fs)
-            hit = [a for a in logic.atoms(pc) if a[0] == "b" and "intersect(reach_set).is_empty()" in a[1]]
+            hit = [a_ for a_ in logic.atoms(pc) if a_[0] == "b" and is_hit_test(a_[1])]
             if not hit or not logic.implies(pc, logic.Not(("atom", hit[0]))):
                 probs.append(f"line {r.lineno}: None (= 'not an attractor') is returned without the reach set touching the avoid set")
         else:
             if inside:
                 probs.append(f"line {r.lineno}: the reach set is returned from inside the fixpoint loop (it need not be closed yet)")
-            elif text(r.value) != "reach_set":
+            elif text(r.value) != REACH:
                 probs.append(f"line {r.lineno}: `{text(r.value)}` is returned instead of the reach set")
     ck.ob("D", fm, loop, not probs, "; ".join(probs) if probs else
           "closure returned only after the fixpoint loop; None only after an avoid hit", key="returns")
-    # the variable-extension loop
-    ext = [n for n in ast.walk(loop) if isinstance(n, ast.For) and any(isinstance(c, ast.Call) and isinstance(c.func, ast.Attribute)
-                                                                         and c.func.attr == "append" and "saturated" in text(c.func.value)
-                                                                         for c in ast.walk(n))]
+    # the list of saturated variables: iterated by a loop of the main loop and appended to in another
+    iterated = {l.iter.id for l in ast.walk(loop) if isinstance(l, ast.For) and isinstance(l.iter, ast.Name)}
+    appended = {c.func.value.id for c in ast.walk(loop) if isinstance(c, ast.Call) and isinstance(c.func, ast.Attribute)
+                and c.func.attr == "append" and isinstance(c.func.value, ast.Name)}
+    sat_names = iterated & appended
+    if len(sat_names) != 1:
+        raise AnalysisError("anchor vanished: list of saturated variables in symbolic_attractor_test")
+    SAT = next(iter(sat_names))
+    ext = [n for n in ast.walk(loop) if isinstance(n, ast.For) and any(
+        isinstance(c, ast.Call) and isinstance(c.func, ast.Attribute) and c.func.attr == "append" and text(c.func.value) == SAT
+        for c in ast.walk(n))]
     if len(ext) != 1:
         raise AnalysisError("anchor vanished: variable-extension loop of symbolic_attractor_test")
     el = ext[0]
@@ -300,31 +337,63 @@ def d(ck: Check) -> None:
     parts = []
     if isinstance(it, ast.BinOp) and isinstance(it.op, ast.Add):
         parts = [it.left, it.right]
-    if len(parts) != 2 or text(parts[0]) != "conflict_vars":
+    CONF = OTHER = None
+    if len(parts) != 2 or not isinstance(parts[0], ast.Name):
         probs.append(f"the extension loop ranges over `{text(it)}`, not over conflict variables + all other variables")
     else:
+        CONF = parts[0].id
         o = parts[1]
         sd_ = fm.single_def(o.id, fm.cfg.loop_header[el]) if isinstance(o, ast.Name) else None
         ov = sd_[1] if sd_ else o
-        if not (isinstance(ov, ast.Call) and callee_name(ov) == "sorted" and text(ov.args[0]) == "other_vars"):
+        if isinstance(ov, ast.Call) and callee_name(ov) == "sorted" and ov.args and isinstance(ov.args[0], ast.Name):
+            OTHER = ov.args[0].id
+        elif isinstance(ov, ast.Name):
+            OTHER = ov.id
+        else:
             probs.append(f"the non-conflict variables are taken from `{text(ov)[:60]}`: variables filtered out here are never "
                          f"saturated, so the returned set is not closed under them (attractor sets too small)")
-        # other_vars starts as all network variables outside the conflict set and only loses saturated variables
-        for dnode in fm.cfg.reaching_defs("other_vars", fm.cfg.loop_header[el]):
-            v = dnode.ast.value if dnode.kind == "stmt" and isinstance(dnode.ast, (ast.Assign, ast.AnnAssign)) else None
-            if isinstance(v, ast.ListComp):
-                g = v.generators[0]
-                if text(g.iter) != "graph.network_variables()" or len(g.ifs) != 1 or text(g.ifs[0]) != f"{text(g.target)} not in conflict_vars":
-                    probs.append("other_vars is not 'all variables of the reduced graph that are not conflict variables'")
-            elif isinstance(v, ast.Call) and callee_name(v) in ("sort_variable_list", "sorted", "list"):
-                continue
-            else:
-                probs.append(f"line {dnode.lineno}: other_vars redefined as `{text(v)[:50] if v is not None else '?'}`")
-        for n in own_walk(f.node):
-            if isinstance(n, ast.Call) and isinstance(n.func, ast.Attribute) and n.func.attr in ("remove", "pop", "clear") \
-                    and text(n.func.value) in ("other_vars", "conflict_vars"):
-                if n.func.attr != "remove" or text(n.args[0]) != text(el.target):
-                    probs.append(f"line {n.lineno}: `{text(n)}` drops a variable that was not saturated")
+        # OTHER starts as all network variables outside the conflict set and only loses saturated variables
+        if OTHER:
+            seen_comp = False
+            for dnode in fm.cfg.reaching_defs(OTHER, fm.cfg.loop_header[el]):
+                v = dnode.ast.value if dnode.kind == "stmt" and isinstance(dnode.ast, (ast.Assign, ast.AnnAssign)) else None
+                if isinstance(v, ast.ListComp):
+                    g = v.generators[0]
+                    seen_comp = True
+                    if text(g.iter) != f"{graph_p}.network_variables()" or len(g.ifs) != 1 or text(g.ifs[0]) != f"{text(g.target)} not in {CONF}" \
+                            or text(v.elt) != text(g.target):
+                        probs.append("the non-conflict variables are not 'all variables of the reduced graph that are not conflict variables'")
+                elif isinstance(v, ast.Call) and callee_name(v) in ("sort_variable_list", "sorted", "list") and v.args and text(v.args[0]) == OTHER:
+                    continue
+                else:
+                    probs.append(f"line {dnode.lineno}: the non-conflict variables are redefined as `{text(v)[:50] if v is not None else '?'}`")
+            # the comprehension may be hidden behind the sort: follow one more step
+            if not seen_comp:
+                comps = [n_ for n_ in own_walk(f.node) if isinstance(n_, ast.Assign) and text(n_.targets[0]) == OTHER and isinstance(n_.value, ast.ListComp)]
+                for n_ in comps:
+                    g = n_.value.generators[0]
+                    seen_comp = True
+                    if text(g.iter) != f"{graph_p}.network_variables()" or len(g.ifs) != 1 or text(g.ifs[0]) != f"{text(g.target)} not in {CONF}":
+                        probs.append("the non-conflict variables are not 'all variables of the reduced graph that are not conflict variables'")
+            if not seen_comp:
+                probs.append("the non-conflict variables are not 'all variables of the reduced graph that are not conflict variables'")
+            for n in own_walk(f.node):
+                if isinstance(n, ast.Call) and isinstance(n.func, ast.Attribute) and n.func.attr in ("remove", "pop", "clear") \
+                        and text(n.func.value) in (OTHER, CONF) and fm.cfgn(n).id in fm.cfg.loop_nodes[loop]:
+                    if n.func.attr != "remove" or text(n.args[0]) != text(el.target):
+                        probs.append(f"line {n.lineno}: `{text(n)}` drops a variable that was not saturated")
+    # forward / backward step of the extension loop, by the calls that compute them
+    FWD = BWD = None
+    for n in ast.walk(el):
+        if isinstance(n, ast.Assign) and isinstance(n.targets[0], ast.Name) and isinstance(n.value, ast.Call):
+            if callee_name(n.value) == "var_post_out":
+                FWD = n.targets[0].id
+                if text(n.value) != f"{graph_p}.var_post_out({text(el.target)}, {REACH})":
+                    probs.append("forward step of the extension loop is not var_post_out(var, reach_set)")
+            if callee_name(n.value) == "var_pre_out":
+                BWD = n.targets[0].id
+    if FWD is None:
+        probs.append("forward step of the extension loop is not var_post_out(var, reach_set)")
     for n in ast.walk(el):
         if isinstance(n, ast.Continue):
             tr = logic.Translator(lambda e: text(e))
@@ -334,31 +403,28 @@ def d(ck: Check) -> None:
                     ff = tr.f(test)
                     fs.append(ff if pol else logic.Not(ff))
             pc = logic.And(*fs)
-            want = logic.And(logic.B("T:can_go_fwd.is_empty()"), logic.B("T:can_go_bwd.is_empty()"))
+            want = logic.And(logic.B(f"T:{FWD}.is_empty()"), logic.B(f"T:{BWD}.is_empty()"))
             if not logic.implies(pc, want):
                 probs.append(f"line {n.lineno}: a variable is passed over under `{logic.show(pc)[:100]}` although it may have an "
                              f"enabled step")
-    fw = [n for n in ast.walk(el) if isinstance(n, ast.Assign) and text(n.targets[0]) == "can_go_fwd"]
-    if not fw or text(fw[0].value) != f"graph.var_post_out({text(el.target)}, reach_set)":
-        probs.append("forward step of the extension loop is not var_post_out(var, reach_set)")
     ck.ob("D", fm, el, not probs, "; ".join(probs) if probs else
           "every unsaturated variable with an enabled step is eventually saturated", key="extension loop")
-    # saturation loop uses all saturated variables, forward from reach_set
+    # saturation loop uses all saturated variables, forward from the reach set
     probs = []
-    sat = [n for n in ast.walk(loop) if isinstance(n, ast.For) and text(n.iter) == "saturated_vars"]
+    sat = [n for n in ast.walk(loop) if isinstance(n, ast.For) and text(n.iter) == SAT]
     if len(sat) < 1:
-        probs.append("no saturation loop over saturated_vars")
+        probs.append("no saturation loop over the saturated variables")
     else:
         s0 = sat[0]
         post = [n for n in ast.walk(s0) if isinstance(n, ast.Call) and callee_name(n) == "var_post_out"]
-        if not post or text(post[0].args[0]) != text(s0.target) or text(post[0].args[1]) != "reach_set":
+        if not post or text(post[0].args[0]) != text(s0.target) or text(post[0].args[1]) != REACH:
             probs.append("forward saturation is not var_post_out(var, reach_set)")
         if any(isinstance(x, ast.Continue) for x in ast.walk(s0)):
             probs.append("a saturated variable can be skipped during saturation")
     ck.ob("D", fm, sat[0] if sat else loop, not probs, "; ".join(probs) if probs else "forward saturation over all saturated variables",
           key="saturation")
     # avoid-hit test precedes every saturation round
-    hits = [n for n in ast.walk(loop) if isinstance(n, ast.If) and "intersect(reach_set).is_empty()" in text(n.test)]
+    hits = [n for n in ast.walk(loop) if isinstance(n, ast.If) and any(is_hit_test("T:" + text(x)) for x in ast.walk(n.test) if isinstance(x, ast.Call))]
     ok = len(hits) >= 1 and all(any(isinstance(x, ast.Return) for x in h.body) for h in hits)
     ck.ob("D", fm, hits[0] if hits else loop, ok, "avoid hit is tested in the saturation loops" if ok else
           "the reach set is never compared with the avoid set: spurious candidates are accepted as attractors", key="avoid test")
